@@ -339,8 +339,12 @@ func (svr *Server) Close() error {
 	// Stop all services at the same time: a service whose processor is waiting
 	// for room in another service's outgoing buffer can only finish stopping
 	// once that other service is being stopped as well.
+	svr.mu.Lock()
+	svcs := svr.svcs
+	svr.mu.Unlock()
+
 	var wg sync.WaitGroup
-	for _, svc := range svr.svcs {
+	for _, svc := range svcs {
 		log.Tracef("Stopping service: %d", svc.id)
 		wg.Add(1)
 		go func(svc *service) {
